@@ -2,6 +2,7 @@ from propdefs.common import *
 
 PROP = {
     "bin": "c14",
+    "minimize": True,   # harness implements `--only i --keep p0,p1,..` (notes/minimisation.md)
     "coq_targets": ["theories/Flow/C14Check", "theories/Flow/DCEProofs"],
     "n": {"quick": 320, "thorough": 8000},
     "theorems": ["dce_shape", "dce_equiv", "key_consistent_check"],
